@@ -9,16 +9,22 @@ import Mistral.Lemmas.SemInv
 namespace Mistral.Sem
 open Mistral Mistral.Join Mistral.Engine
 
-def admissibleB (orc : String → Bool) (w : World) : Event → Bool
-  | .stop _ => false
-  | .deliver (.runAction _) => false
-  | .execute t ok => ok == orc t.1
-  | .deliver (.rpcStartTask t false) =>
-    !(w.pending.contains (.rpcStartTask t false)) ||
-      (match findTask w t with
-       | some r => r.state != .ERROR
-       | none => true)
-  | _ => true
+/-- an admissible event: plain and not a stale re-start -/
+def admissibleB (orc : String → Bool) (w : World) (e : Event) : Bool := plainB orc e && !staleB w e
+
+theorem adm_not_stop (orc : String → Bool) (w : World) (t : St) : admissibleB orc w (.stop t) = false := rfl
+
+theorem adm_execute (orc : String → Bool) (w : World) (t : Tid) (ok : Bool)
+    (h : admissibleB orc w (.execute t ok) = true) : ok = orc t.1 := by
+  simpa [admissibleB, plainB, staleB] using h
+
+theorem adm_not_stale (orc : String → Bool) (w : World) (t : Tid) (r : TaskRow)
+    (h : admissibleB orc w (.deliver (.rpcStartTask t false)) = true)
+    (hp : w.pending.contains (.rpcStartTask t false) = true) (hr : findTask w t = some r) : r.state ≠ .ERROR := by
+  intro he
+  have hp' : Item.rpcStartTask t false ∈ w.pending := by simpa using hp
+  simp [admissibleB, plainB, staleB, hr, he] at h
+  exact h hp'
 
 /-! ### workflow state moves -/
 
@@ -265,7 +271,7 @@ theorem step_sinv (sp : Spec) (orc : String → Bool) (rk : String → Nat) (hsp
     (w : World) (e : Event) (h : SInv sp orc w) (hji : JoinInv sp w) (ha : admissibleB orc w e = true) :
     SInv sp orc (step sp w e) := by
   cases e with
-  | stop t => simp [admissibleB] at ha
+  | stop t => rw [adm_not_stop] at ha; cases ha
   | start =>
     simp only [step]
     split
@@ -301,7 +307,7 @@ theorem step_sinv (sp : Spec) (orc : String → Bool) (rk : String → Nat) (hsp
     · exact h
     · rename_i hc
       have hmem : Item.runAction t ∈ w.pending := by simpa using hc
-      have hok : ok = orc t.1 := by simpa [admissibleB] using ha
+      have hok : ok = orc t.1 := adm_execute orc w t ok ha
       have h0 := sinv_pending_sub sp orc w (removeFirst w.pending (.runAction t)) h (fun x hx => mem_removeFirst _ _ _ hx)
       exact sinv_addItems sp orc _ [.rpcResult t ok] h0 (by
         intro it hi
@@ -387,11 +393,7 @@ theorem step_sinv (sp : Spec) (orc : String → Bool) (rk : String → Nat) (hsp
           exact hji.2 _ hmem rfl t false (Or.inr rfl)
         · intro hf r hr
           subst hf
-          have ha' : admissibleB orc w (.deliver (.rpcStartTask t false)) = true := ha
-          simp only [admissibleB, hc, Bool.not_true, Bool.false_or] at ha'
-          have hr' : findTask w t = some r := hr
-          rw [hr'] at ha'
-          simpa using ha'
+          exact adm_not_stale orc w t r ha (by simpa using hc) hr
       | rpcResult t ok => exact sinv_rpcResult sp orc rk hsp _ t ok h0 (h.items _ hmem)
       | jobRefresh t => exact sinv_jobRefresh sp orc rk hsp _ t h0
 
